@@ -184,7 +184,7 @@ def _fn_by_key():
     return _FBK[k]
 
 
-RETURN_FILES = ("sbe_schema_validator.hpp", "sbe_schema_cpp_validator.hpp")
+RETURN_FILES = ("sbe_schema_validator.hpp", "sbe_schema_cpp_validator.hpp", "utils.hpp")
 
 
 def ret_key(fn):
